@@ -22,6 +22,7 @@ func init() {
 	reg1("C02History", SetupC02History, HarnessC02History)
 	reg1("C03Snapshot", SetupC03Snapshot, HarnessC03Snapshot)
 	reg1("C04Txn", SetupC04Txn, HarnessC04Txn)
+	reg1("C06Parked", SetupC06Parked, HarnessC06Parked)
 	reg1("C07Pair", SetupC07Pair, HarnessC07Pair)
 	reg1("C08Tsr", SetupC08Tsr, HarnessC08Tsr)
 	reg1("C11Serve", SetupC11Serve, HarnessC11Serve)
